@@ -323,14 +323,33 @@ func (c *xsyncMap) Compute(
 // Returns the item or nil,
 // and a boolean indicating whether the key was found.
 func (c *xsyncMap) GetAndDelete(k string) (interface{}, bool) {
-	v, ok := c.items.LoadAndDelete(k)
-	if !ok {
+	var (
+		i       item
+		removed bool
+		live    bool
+	)
+	c.items.Compute(
+		k,
+		func(value interface{}, loaded bool) (interface{}, bool) {
+			if loaded {
+				i = value.(item)
+				removed = true
+				live = !i.expired()
+			}
+			// delete
+			return nil, true
+		},
+	)
+	if !removed {
 		return nil, false
 	}
-	i := v.(item)
 	ec := c.EvictedCallback()
 	if ec != nil {
 		ec(k, i.v)
+	}
+	if !live {
+		// the removed item had already expired
+		return nil, false
 	}
 	return i.v, true
 }
